@@ -52,16 +52,16 @@ Print Assumptions C15_errors.
    dynamically; 2 is redirected to 4 which is missing) meets the hypotheses
    and the walk yields 1, 2 (as redirect), 4 (as error) but not 3. *)
 Definition ex_dep (t : N) (target : spec) (dyn : bool) : dep :=
-  {| d_text := t; d_filelike := false; d_code := ROk target 0; d_type := RNone; d_dyn := dyn |}.
+  {| d_text := t; d_filelike := false; d_code := ROk target 0; d_type := RNone; d_dyn := dyn; d_deno_types := false |}.
 Definition ex_graph : graph :=
   {| g_kind := KAll; g_roots := [1];
      g_slots := [(1, SMod {| m_kind := MkJs; m_spec := 1; m_media := MTypeScript;
                               m_deps := [ex_dep 10 2 false; ex_dep 11 3 true];
-                              m_types_dep := None; m_fc_deps := None |});
+                              m_types_dep := None; m_fc_deps := None; m_dts := false |});
                  (3, SMod {| m_kind := MkJs; m_spec := 3; m_media := MTypeScript; m_deps := [];
-                              m_types_dep := None; m_fc_deps := None |});
+                              m_types_dep := None; m_fc_deps := None; m_dts := false |});
                  (4, SErr (Some 4) 7)];
-     g_redirects := [(2, 4)]; g_imports := []; g_schemes := [] |}.
+     g_redirects := [(2, 4)]; g_imports := []; g_schemes := []; g_has_node := false; g_errkinds := [] |}.
 Example C15_nonvacuous :
   NoDup (g_roots ex_graph) /\
   option_map (map fst) (walk ex_graph valid_opts (fun _ => false) [1]) = Some [1; 2; 4].
